@@ -4,12 +4,16 @@ import xml.etree.ElementTree as ET
 from .. import common as C
 from .. import schema_harness as H
 from .. import translate_schema as TS
+from . import c01 as P01
 
 PROP = "C03"
-COQ_EXTRA = ["theories/Model/ConvertCases.vo", "theories/Gen/SchemaS.vo"]
+COQ_EXTRA = ["theories/Model/ConvertCases.vo", "theories/Gen/SchemaS.vo", "theories/Model/TypedCases.vo", "theories/Gen/TypedGen.vo"]
 IMPORTS = ["Model.Schema", "Model.Convert", "Model.ConvertCases", "Gen.SchemaGen", "Gen.SchemaS"]
-PARTIAL = ["the theorem is the structural half (placement: from_etree = construct o denote, per-attribute field_rel); what each converter makes of a text is the "
-           "subject of C09/C10 - here the real converters are compared, on the whole lexical space, with an independent implementation of the OFX type rules (python oracle)",
+PARTIAL = ["the generic theorems are the structural half (placement: from_etree = construct o denote, per-attribute field_rel); from_etree_places_typed_values instantiates them with the "
+           "CONCRETE converters (C10's convert, C09's dt_convert / tm_convert): each attribute holds typed_value_of its child's text, and rendered_datetime_value composes C09's "
+           "dt_convert_denotes (any rendering of a calendar-valid date-time gets the denoted instant); the denotation of the other types (decimal separators, entity decoding, tokens) "
+           "is stated in C10's obligations and, here, the real converters are compared on the whole lexical space with an independent implementation of the OFX type rules (python "
+           "oracle); the typed model is run on every generated document (TFromM cases: no converter table)",
            "offsets strictly between GMT-1 and GMT are left to C09 (recorded/fixed there)"]
 MANIFEST = {
     "engine": "Schema",
@@ -210,6 +214,7 @@ def run(rep, tier, rng):
         rep.broken.append("translator not complete: %s" % ctx.d["problems"][:3])
     per_class = 6 if tier == "thorough" else 2
     items, meta = [], []
+    titems, tmeta = [], []
     lex = {}
     for cls in ctx.concrete:
         for _ in range(per_class):
@@ -242,6 +247,12 @@ def run(rep, tier, rng):
                     rep.failures.append(C.Failure("value-differs:%s" % ",".join(kinds), "%s: converted (path, value) pairs differ from the values the document was written from: %r" % (cls.__name__, diff), case))
             # correspondence: the model on the parsed tree
             c, out, _ = H.case_from(ctx, parsed); items.append(c); meta.append(case)
+            # ... and the TYPED model (concrete converters of the C10 engine, date-times through the C09 engine: no converter table at all)
+            try:
+                exp = H.enc_result(got, lambda i: "(%s,[%s])" % (P01.enc_pinst(ctx, i), ";".join(H.cs(t) for t in wtags)))
+                titems.append("TFromM %s (%s)" % (H.enc_etree(parsed), exp)); tmeta.append(case)
+            except ValueError:
+                pass
     rep.extra["typed_values_by_kind"] = lex
     for m in meta[:3]:
         rep.sample(m)
@@ -252,6 +263,10 @@ def run(rep, tier, rng):
     bad = C.coq_bad_indices(PROP, "docs", IMPORTS, "ccase_ok S", "ccase", items, shard=150, prelude="Local Open Scope string_scope.")
     for i in bad[:30]:
         rep.disagreements.append(dict(meta[i], case=items[i][:1200]))
+    rep.extra["typed_model_cases"] = len(titems)
+    bad = C.coq_bad_indices(PROP, "typed", P01.TIMPORTS, "tcase_ok ety_table S", "tcase", titems, shard=150, prelude="Local Open Scope string_scope.")
+    for i in bad[:30]:
+        rep.disagreements.append(dict(tmeta[i], what="typed model", case=titems[i][:1500]))
 
 
 def H_lists_adjacent(ctx, obj):
